@@ -3,9 +3,11 @@ package ast
 import (
 	"bytes"
 	"fmt"
+	"math"
 	"math/rand"
 	"reflect"
 	"strconv"
+	"strings"
 	"time"
 )
 
@@ -144,7 +146,12 @@ func (a *Atom) String() string {
 		return *a.Symbol
 	}
 	if a.Float != nil {
-		return strconv.FormatFloat(*a.Float, 'f', -1, 64)
+		s := strconv.FormatFloat(*a.Float, 'f', -1, 64)
+		if !strings.Contains(s, ".") && !math.IsInf(*a.Float, 0) && !math.IsNaN(*a.Float) {
+			// "-1500" would be read back as an integer (or not at all when it overflows int64)
+			s += ".0"
+		}
+		return s
 	}
 	if a.Int != nil {
 		return strconv.FormatInt(*a.Int, 10)
